@@ -37,6 +37,7 @@ KIND_MEMBERS = {
     "SAMEIN3": ["STRIDED_SLICE"],
     "SPLIT": ["SPLIT"],
     "CONCAT": ["CONCATENATION"],
+    "CONCAT3": ["CONCATENATION"],
     "FIXSL": ["SOFTMAX", "LOGISTIC"],
     "FIXT": ["TANH"],
     "UNSUP": ["RELU", "ABS"],
@@ -50,12 +51,12 @@ CODE = {
     "SOFTMAX": B.SOFTMAX, "LOGISTIC": B.LOGISTIC, "TANH": B.TANH, "RELU": B.RELU, "ABS": B.ABS,
 }
 CODE2NAME = {v: k for k, v in CODE.items()}
-NAME2KIND = {n: k for k, ms in KIND_MEMBERS.items() for n in ms}
+NAME2KIND = {n: k for k, ms in KIND_MEMBERS.items() for n in ms if k != "CONCAT3"}
 # operand signature per kind (roles); "x" = act or generic constant; "w|act" for BMM rhs
 KIND_SIG = {
     "FC": ["act", "w", "b?"], "TCONV": ["aux", "w", "act", "b?"], "BMM": ["act", "w"], "EMB": ["aux", "w"],
     "EW2": ["x", "x"], "EW1": ["act"], "EW1A": ["act", "aux"], "SAMEIN0": ["act"], "SAMEIN1": ["act", "aux"],
-    "SAMEIN3": ["act", "aux", "aux", "aux"], "SPLIT": ["aux", "act"], "CONCAT": ["x", "x"], "FIXSL": ["act"],
+    "SAMEIN3": ["act", "aux", "aux", "aux"], "SPLIT": ["aux", "act"], "CONCAT": ["x", "x"], "CONCAT3": ["x", "x", "x"], "FIXSL": ["act"],
     "FIXT": ["act"], "UNSUP": ["act"],
 }
 NOUT = {"SPLIT": 2}
@@ -220,12 +221,12 @@ def _shapes(sub, codes):
     for t in acts:
       if len(sh[t]) != 4 and k not in ("EW1", "FIXSL", "FIXT", "UNSUP"):
         raise Unrealisable("non-NHWC operand")
-    if k in ("EW2", "CONCAT"):
+    if k in ("EW2", "CONCAT", "CONCAT3"):
       # constants take the shape of the other operand's [1,2,w,4]
       ash = [sh[t] for t in acts]
       if not ash:
         raise Unrealisable("no activation operand")
-      if k == "CONCAT":
+      if k in ("CONCAT", "CONCAT3"):
         if len({tuple(s[1:]) for s in ash}) > 1:
           raise Unrealisable("concat of different inner shapes")
         n = sum(sh[t][0] if role[t] == "act" else 1 for t in o["ins"])
